@@ -180,14 +180,50 @@ func (p *Prog) revisionBytesRec(v ssa.Value, depth int) (revBytes, bool) {
 			}
 			return base, true
 		}
-		if sc := x.Common().StaticCallee(); sc != nil && sc.Blocks != nil && len(sc.Params) >= 1 && sc.Signature.Results().Len() == 1 {
-			// helper: every return is revision bytes of one and the same parameter (the flag byte may depend on
-			// another parameter, e.g. encode(rev, deleted))
+		if rb, ok := p.revisionBytesOfHelper(x, 0, depth); ok {
+			return rb, true
+		}
+	case *ssa.Extract:
+		if c, ok := x.Tuple.(*ssa.Call); ok {
+			if rb, ok := p.revisionBytesOfHelper(c, x.Index, depth); ok {
+				return rb, true
+			}
+		}
+	case *ssa.Phi:
+		var out revBytes
+		for i, e := range x.Edges {
+			rb, ok := p.revisionBytesRec(e, depth+1)
+			if !ok {
+				return revBytes{}, false
+			}
+			if i == 0 {
+				out = rb
+			} else if resolve(rb.Rev) != resolve(out.Rev) {
+				return revBytes{}, false
+			} else if rb.Flag != out.Flag {
+				out.Len = 0
+				out.Flag = out.Flag || rb.Flag
+			}
+		}
+		return out, len(x.Edges) > 0
+	}
+	return revBytes{}, false
+}
+
+// revisionBytesOfHelper: result #ridx of a call of a repository helper every return of which is the encoding of one and
+// the same parameter (the flag byte may depend on another parameter, e.g. encode(rev, deleted)).
+func (p *Prog) revisionBytesOfHelper(x *ssa.Call, ridx int, depth int) (revBytes, bool) {
+	{
+		if sc := x.Common().StaticCallee(); sc != nil && sc.Blocks != nil && len(sc.Params) >= 1 && sc.Signature.Results().Len() > ridx {
 			okAll := len(sc.Blocks) > 0
 			n, flag, pidx, nret := 0, false, -1, 0
 			for _, b := range sc.Blocks {
 				if ret, ok := b.Instrs[len(b.Instrs)-1].(*ssa.Return); ok {
-					rb, ok := p.revisionBytesRec(ret.Results[0], depth+1)
+					if ridx >= len(ret.Results) {
+						okAll = false
+						continue
+					}
+					rb, ok := p.revisionBytesRec(ret.Results[ridx], depth+1)
 					if !ok {
 						okAll = false
 						continue
@@ -211,23 +247,6 @@ func (p *Prog) revisionBytesRec(v ssa.Value, depth int) (revBytes, bool) {
 				return revBytes{Rev: x.Common().Args[pidx], Len: n, Flag: flag}, true
 			}
 		}
-	case *ssa.Phi:
-		var out revBytes
-		for i, e := range x.Edges {
-			rb, ok := p.revisionBytesRec(e, depth+1)
-			if !ok {
-				return revBytes{}, false
-			}
-			if i == 0 {
-				out = rb
-			} else if resolve(rb.Rev) != resolve(out.Rev) {
-				return revBytes{}, false
-			} else if rb.Flag != out.Flag {
-				out.Len = 0
-				out.Flag = out.Flag || rb.Flag
-			}
-		}
-		return out, len(x.Edges) > 0
 	}
 	return revBytes{}, false
 }
